@@ -34,6 +34,7 @@ RefCfg(e) ==
 OracleAgrees(e) ==
   \/ ObsExpRet(e) = "any"
   \/ e.tb # "ok"
+  \/ e.n0 = 0           \* no layout known (the unfaulted reference save of this document gave no complete file)
   \/ Run(RefCfg(e)).ret = (IF ObsExpRet(e) = "nil" THEN "nil" ELSE "err")
 
 Judge(e) ==
